@@ -348,7 +348,7 @@ def _lean(ctx, lines):
     """pipe the lines through the driver; big batches are split over a few driver processes"""
     if not ctx.driver_ok:
         return [None] * len(lines)
-    jobs = max(1, min(int(os.environ.get("FCV_JOBS", "6")), (os.cpu_count() or 1)))
+    jobs = max(1, min(int(os.environ.get("FCV_JOBS", "12" if ctx.tier == "thorough" else "6")), (os.cpu_count() or 1)))
     if jobs == 1 or len(lines) < 24:
         reps = ctx.lean(lines)
     else:
@@ -593,8 +593,8 @@ def run(ctx):
     ]
     unit_checks(ctx)
     lex_checks(ctx)
-    n_pairs = ctx.scale(330, 20000)
-    CH = 110
+    n_pairs = ctx.scale(330, 16000)
+    CH = ctx.scale(110, 400)
     cli_budget = [ctx.scale(12, 200)]
     done = 0
     while done < n_pairs:
